@@ -4,6 +4,7 @@
 
 pub mod alg;
 pub mod alloc_mon;
+pub mod corpus;
 pub mod ctx;
 pub mod gen_;
 pub mod mutate;
